@@ -82,7 +82,77 @@ def inputs():
     hd[0] = [0, 0, 0, 0]; hd[1] = [1, 1, 0, 1]; hd[2] = [0, 1, 0, 0]
     I['hdd_in'] = hd.ravel().copy()
     I['hdd_bseq'] = binary_sequence(hd.ravel().copy())
+    harden_inputs(I, gv, bits, wave, k)
     return I
+
+
+def harden_inputs(I, gv, bits, wave, k):
+    """input kinds added by the generic hardening pass (all built without random numbers)"""
+    from opticomlib.typing import binary_sequence, electrical_signal, optical_signal
+    n = k.size
+    lev = (3 * bits + 1).astype(np.int64)                       # slot levels 1 / 4
+    iw = np.kron(lev, np.ones(gv.sps, dtype=np.int64))          # integer-valued waveform, int64
+    # integer-dtype and real-dtype optical fields, single precision; integer noise; noise in one polarisation only
+    I['oint'] = optical_signal(iw.copy())                                                         # int64, no noise
+    I['oint2n'] = optical_signal(np.array([iw, iw[::-1]], dtype=np.int32), np.array([(k % 3) - 1, (k % 2)], dtype=np.int32))
+    I['oreal'] = optical_signal(0.03 * (0.1 + wave), 1e-3 * np.cos(0.9 * k))                      # float64 field + float64 noise
+    I['oc64'] = optical_signal((0.03 * (0.1 + wave) * np.exp(0.3j * np.sin(0.1 * k))).astype(np.complex64))
+    I['opt2_n1'] = optical_signal(np.array([0.03 * (0.1 + wave), 0.02j * wave[::-1]]), np.array([np.zeros(n), 1e-3 * np.exp(1j * 0.4 * k)]))
+    I['opt2_e'] = optical_signal(np.array([0.03 * (0.1 + wave) + 0j, np.zeros(n)]))                # second polarisation empty
+    # integer / single precision electrical signals and arrays
+    I['eint'] = electrical_signal(2 * iw)                                                         # int64, no noise
+    I['eintn'] = electrical_signal((2 * iw).astype(np.int16), ((k % 5) - 2).astype(np.int16))      # int16 signal + int16 noise
+    I['ef32'] = electrical_signal((0.2 + wave + 0.05 * np.sin(0.37 * k)).astype(np.float32))
+    I['vint_nd'] = (2 * iw).astype(np.int32)
+    I['e_zn'] = electrical_signal(0.2 + wave, np.zeros(n))                                        # all-zero noise
+    # bit containers: bool / uint8 arrays, str, list, tuple; PPM symbols as shared binary_sequence / ndarray
+    I['bits_bool'] = bits[:32].astype(bool)
+    I['bits_u8'] = bits[:32].astype(np.uint8)
+    I['bits_list'] = [int(b) for b in bits[:32]]
+    I['bits_tuple'] = tuple(int(b) for b in bits[:32])
+    I['bits_str'] = ''.join(str(int(b)) for b in bits[:32])
+    I['bits_str2'] = ', '.join(str(int(b)) for b in bits[:32])
+    sym = np.zeros(16 * 4, dtype=np.uint8)
+    sym[np.arange(16) * 4 + (2 * bits[0:32:2] + bits[1:32:2])] = 1
+    I['ppm_sym'] = binary_sequence(sym.copy())
+    I['ppm_sym_nd'] = sym.astype(np.int64)
+    I['ppm_sym_str'] = ''.join(str(int(b)) for b in sym)
+    # length-1 records: two polarisations (shape (2, 1)) with noise, one polarisation, electrical
+    I['o21'] = optical_signal(np.array([[0.03 + 0.01j], [0.02j]]), np.array([[1e-3 + 0j], [-2e-3j]]))
+    I['o1'] = optical_signal(np.array([0.03 + 0.01j]))
+    I['e1'] = electrical_signal(np.array([1.5]), np.array([0.25]))
+    # long records (> 10^4 samples): continuous-valued, practically unique sample values
+    m = np.arange(16384)
+    chirp = np.sin(2e-3 * m + 3e-7 * m ** 2) * (1 + 0.3 * np.cos(1.1e-3 * m)) + 1e-3 * np.sin(0.777 * m)
+    I['long'] = chirp.copy()
+    I['long_es'] = electrical_signal(chirp.copy())
+    I['long_esn'] = electrical_signal(chirp.copy(), 0.01 * np.cos(0.313 * m))
+    # a frequency response
+    I['H'] = np.exp(-1j * 0.5 * np.linspace(-3, 3, 257) ** 2) / (1 + 0.2j * np.linspace(-3, 3, 257))
+
+
+class Aliased(Exception):
+    """raised by the harness inside a chained call: a stage returned a buffer of the (write-protected) result it was given"""
+
+
+def pipe(x, *stages):
+    """x -> f1 -> f2 -> ...: the result of one call is the argument of the next.  Every intermediate result is write-protected before
+    it is handed on (an in-place write of the next stage raises), must be byte-identical afterwards and must not share memory
+    with what the next stage returns.  Returns all results."""
+    outs = []
+    for f in stages:
+        bufs = arrays_of(x)
+        for a in bufs:
+            a.flags.writeable = False
+        before = [a.tobytes() for a in bufs]
+        y = f(x)
+        if [a.tobytes() for a in bufs] != before:
+            raise Aliased('a stage modified the sample data of its argument')
+        if any(np.shares_memory(a, b) for a in bufs for b in arrays_of(y)):
+            raise Aliased('a stage returned memory of its argument')
+        outs.append(y)
+        x = y
+    return tuple(outs)
 
 
 def menu():
@@ -163,22 +233,173 @@ def menu():
         ('PRBS.resume', lambda I: d.PRBS(9, 40, seed=77, return_seed=True), True),
         ('esig.ops', lambda I: (I['v'] * 2 - I['v'][::-1])('w'), True),
         ('osig.ops', lambda I: (I['opt2'] + I['opt2'][::-1])('t', True), True),
+    ] + harden_menu() + [
         # heavy entries (only at depth <= 2)
         ('GET_EYE', lambda I: d.GET_EYE(I['rx_lp'], sps_resamp=32), False),
         ('ook.DSP', lambda I: ook.DSP(I['rx_lp']), False),
         ('ppm.DSP.hard', lambda I: ppm.DSP(I['rx_lp'], 4, 'hard'), False),
         ('FBG', lambda I: d.FBG(I['mod'], fc=gv.f0, vdneff=1e-4, kL=2.0, print_params=False, retH=True), True),
     ]
-    heavy = {'GET_EYE', 'ook.DSP', 'ppm.DSP.hard', 'FBG', 'FBG.apo', 'FBG.apo2'}
+    heavy = {'GET_EYE', 'ook.DSP', 'ppm.DSP.hard', 'FBG', 'FBG.apo', 'FBG.apo2'} | HARDEN_HEAVY
+    assert len({n for n, f, det in M}) == len(M)
     return [(n, f, det, n in heavy) for n, f, det in M]
 
 
+# entries of the hardening pass that stay out of the cross-grid / depth-3 products (long records, chains, slow filters)
+HARDEN_HEAVY = {'long:ADC.nd', 'long:ADC.es', 'long:ADC.esn', 'long:LPF', 'long:shortest_int', 'chain:EDFA-FIBER-PD',
+                'chain:DAC-MZM-DM-PD-LPF-ADC', 'chain:LASER-PM-EDFA-BPF-PD', 'chain:PPM', 'dt:FBG.int', 'opt:FBG.single',
+                'dt:PD.int', 'dt:PD.real', 'dt:LPF.int', 'dt:LPF.intnd', 'dt:BPF.int', 'dt:BPF.real', 'opt:GET_EYE.nslots', 'lay:PD.n1',
+                'opt:LPF.retH.es', 'opt:PD.shot', 'lay:BPF.empty'}
+
+
+def harden_menu():
+    """entries added by the generic hardening pass.  Their names carry a class prefix ('dt:' sample dtypes, 'cont:' containers,
+    'len1:' length-1 records, 'long:' records of more than 10^4 samples, 'lay:' layouts, 'opt:' rarely used arguments,
+    'chain:' results fed to the next call, 'api:' public functions that were not in the menu) so that they do not fall into the
+    name-prefix groups of HISTORY_GROUPS."""
+    from opticomlib import devices as d, ppm, ook, utils, lab
+    from opticomlib.typing import gv
+    return [
+        # --- sample dtypes: integer, real, single precision fields and drives
+        ('dt:PM.int', lambda I: d.PM(I['oint'], I['vint_nd']), True),
+        ('dt:PM.real', lambda I: d.PM(I['oreal'], I['eint'], Vpi=3.0), True),
+        ('dt:MZM.int', lambda I: d.MZM(I['oint'], I['eint'], bias=1.0, Vpi=4.0), True),
+        ('dt:MZM.int2', lambda I: d.MZM(I['oint2n'], I['eintn'], Vpi=4.0, pol='y'), True),
+        ('dt:BPF.int', lambda I: d.BPF(I['oint'], 3e9), True),
+        ('dt:BPF.real', lambda I: d.BPF(I['oreal'], 3e9, n=2), True),
+        ('dt:EDFA.int', lambda I: d.EDFA(I['oint2n'], 10.0, 4.0), False),
+        ('dt:EDFA.real', lambda I: d.EDFA(I['oreal'], 20.0, 5.0), False),
+        ('dt:DM.int', lambda I: d.DM(I['oint'], 100.0), True),
+        ('dt:DM.real', lambda I: d.DM(I['oreal'], -80.0, retH=True), True),
+        ('dt:DM.c64', lambda I: d.DM(I['oc64'], 150.0), True),
+        ('dt:FIBER.int', lambda I: d.FIBER(I['oint2n'], 5.0, alpha=0.2, beta_2=-20.0), True),
+        ('dt:FIBER.real', lambda I: d.FIBER(I['oreal'], 5.0, alpha=0.2, beta_2=-20.0, gamma=2.0), True),
+        ('dt:FIBER.c64', lambda I: d.FIBER(I['oc64'], 8.0, beta_2=10.0), True),
+        ('dt:PD.int', lambda I: d.PD(I['oint'], 3e9, include_noise='ase-only'), True),
+        ('dt:PD.real', lambda I: d.PD(I['oreal'], 3e9), False),
+        ('dt:FBG.int', lambda I: d.FBG(I['oint'], fc=gv.f0, vdneff=1e-4, kL=1.5, print_params=False), True),
+        ('dt:LPF.int', lambda I: d.LPF(I['eint'], 2e9), True),
+        ('dt:LPF.intnd', lambda I: d.LPF(I['vint_nd'], 2e9, n=2, retH=True), True),
+        ('dt:ADC.int', lambda I: d.ADC(I['eint'], n=3), True),
+        ('dt:ADC.intn', lambda I: d.ADC(I['eintn'], n=4, otype='n'), True),
+        ('dt:ADC.intnd', lambda I: d.ADC(I['vint_nd'], n=2), True),
+        ('dt:ADC.f32', lambda I: d.ADC(I['ef32'], n=6), True),
+        ('dt:SAMPLER.int', lambda I: d.SAMPLER(I['eintn'], 3), True),
+        ('dt:SAMPLER.f32', lambda I: d.SAMPLER(I['ef32'], 0), True),
+        ('dt:SDD.int', lambda I: ppm.SDD(I['eint'], 4), True),
+        ('dt:SDD.intn', lambda I: ppm.SDD(I['eintn'], 2), True),
+        ('dt:ppm.DSP.int', lambda I: ppm.DSP(I['eintn'], 4, 'soft'), True),
+        ('dt:ppm.DSP.hard.int', lambda I: ppm.DSP(I['eint'], 4, 'hard', threshold=4), False),
+        ('dt:DAC.bool', lambda I: d.DAC(I['bits_bool'], Vout=2.0), True),
+        ('dt:DAC.u8', lambda I: d.DAC(I['bits_u8'], bias=-0.5, pulse_shape='rz'), True),
+        ('dt:PPM_ENC.bool', lambda I: ppm.PPM_ENCODER(I['bits_bool'], 4), True),
+        ('dt:PPM_ENC.u8', lambda I: ppm.PPM_ENCODER(I['bits_u8'], 2), True),
+        ('dt:HDD.i64', lambda I: ppm.HDD(I['ppm_sym_nd'], 4), False),
+        ('dt:shortest_int.int', lambda I: utils.shortest_int(I['vint_nd'], 50), True),
+        ('dt:esig.ops.int', lambda I: ((I['eint'] * 2 - I['eint'][::-1])('w'), (I['eintn'] + I['eintn']).power(), I['eint'] > 3), True),
+        ('dt:osig.ops.int', lambda I: ((I['oint2n'] + I['oint2n'][::-1])('t', True), I['oint'].power(), (I['oint'] * I['oint']).abs()), True),
+        ('dt:SYNC.int', lambda I: lab.SYNC(I['rx3'], I['bits_u8']), True),
+        # --- containers: every codec / counter with str, list, tuple, ndarray and binary_sequence arguments
+        ('cont:PPM_ENC.bseq', lambda I: ppm.PPM_ENCODER(I['bseq'], 4), True),
+        ('cont:PPM_ENC.str', lambda I: (ppm.PPM_ENCODER(I['bits_str'], 4), ppm.PPM_ENCODER(I['bits_str2'], 8)), True),
+        ('cont:PPM_ENC.list', lambda I: (ppm.PPM_ENCODER(I['bits_list'], 2), ppm.PPM_ENCODER(I['bits_tuple'], 16)), True),
+        ('cont:PPM_DEC.bseq', lambda I: ppm.PPM_DECODER(I['ppm_sym'], 4), True),
+        ('cont:PPM_DEC.nd', lambda I: (ppm.PPM_DECODER(I['ppm_sym_nd'], 4), ppm.PPM_DECODER(I['ppm_sym_str'], 4)), True),
+        ('cont:HDD.shared', lambda I: ppm.HDD(I['ppm_sym'], 4), False),
+        ('cont:HDD.str', lambda I: (ppm.HDD(I['bits_str'], 4), ppm.HDD(I['bits_list'], 8), ppm.HDD(I['bits_tuple'], 2)), False),
+        ('cont:DAC.str', lambda I: (d.DAC(I['bits_str']), d.DAC(I['bits_list'], Vout=3.0), d.DAC(I['bits_tuple'], pulse_shape='rz')), True),
+        ('cont:BER.cnt', lambda I: (ook.BER_analizer('counter', Tx=I['bits_str'], Rx=I['bits_list']),
+                                    ppm.BER_analizer('counter', Tx=I['bits_tuple'], Rx=I['bits_u8']),
+                                    ook.BER_analizer('counter', Tx=I['bits_bool'], Rx=I['bits_u8'][::-1])), True),
+        ('cont:bseq.ops', lambda I: (I['bseq'] + I['bits_list'], I['bits_str'] + I['tx32'], I['tx32'] + I['bits_u8'], I['bits_tuple'] + I['tx32'],
+                                     I['tx32'] == I['bits_u8'], ~I['tx32'], I['bits_bool'] + I['tx32']), True),
+        # --- length-1 records, two polarisations
+        ('len1:PM', lambda I: (d.PM(I['o21'], 1.5, Vpi=3.0), d.PM(I['o1'], I['e1'])), True),
+        ('len1:MZM', lambda I: (d.MZM(I['o21'], I['e1'], bias=-1.0, Vpi=2.0, pol='y'), d.MZM(I['o1'], 0.5)), True),
+        ('len1:EDFA', lambda I: d.EDFA(I['o21'], 10.0, 4.0), False),
+        ('len1:DM', lambda I: (d.DM(I['o21'], 100.0), d.DM(I['o1'], 100.0, retH=True)), True),
+        ('len1:FIBER', lambda I: d.FIBER(I['o21'], 5.0, alpha=0.2, beta_2=-20.0, gamma=1.5), True),
+        ('len1:ADC', lambda I: (d.ADC(I['e1'], n=4), d.SAMPLER(I['e1'], 0)), True),
+        ('len1:osig.ops', lambda I: ((I['o21'] * 2 + I['o21'])('w'), I['o21'].power(), I['e1'] - I['e1'], (I['o21'] + I['o1']).abs()), True),
+        # --- layouts: noise in one polarisation only, second polarisation empty, all-zero noise
+        ('lay:EDFA.n1', lambda I: d.EDFA(I['opt2_n1'], 15.0, 5.0), False),
+        ('lay:FIBER.n1', lambda I: d.FIBER(I['opt2_n1'], 10.0, alpha=0.2, beta_2=-20.0, gamma=2.0), True),
+        ('lay:DM.empty', lambda I: d.DM(I['opt2_e'], 120.0), True),
+        ('lay:PD.n1', lambda I: d.PD(I['opt2_n1'], 3e9, include_noise='ase-only'), True),
+        ('lay:BPF.empty', lambda I: d.BPF(I['opt2_e'], 3e9), True),
+        ('lay:MZM.n1', lambda I: d.MZM(I['opt2_n1'], I['e_zn'], Vpi=2.0), True),
+        ('lay:ADC.zn', lambda I: (d.ADC(I['e_zn'], n=4), d.SAMPLER(I['e_zn'], 7), ppm.SDD(I['e_zn'], 4)), True),
+        # --- long records: more than 10^4 (practically unique) samples
+        ('long:ADC.nd', lambda I: d.ADC(I['long'], n=8), True),
+        ('long:ADC.es', lambda I: d.ADC(I['long_es'], n=4, otype='n'), True),
+        ('long:ADC.esn', lambda I: d.ADC(I['long_esn'], n=6), True),
+        ('long:LPF', lambda I: d.LPF(I['long_es'], 2e9), True),
+        ('long:shortest_int', lambda I: (utils.shortest_int(I['long'], 99.99), utils.shortest_int(I['long'], 0.5)), True),
+        # --- rarely used arguments
+        ('opt:LPF.retH.es', lambda I: d.LPF(I['v'], 2e9, n=3, retH=True), True),
+        ('opt:DM.retH.2pol', lambda I: d.DM(I['opt2'], 60.0, retH=True), True),
+        ('opt:PRBS.retseed', lambda I: d.PRBS(7, 30, return_seed=True), False),
+        ('opt:PRBS.chain', lambda I: d.PRBS(7, 20, seed=d.PRBS(7, 20, seed=3, return_seed=True)[1], return_seed=True), True),
+        ('opt:ADC.fs', lambda I: d.ADC(I['v'], fs=4e9, n=4), True),
+        ('opt:PD.shot', lambda I: d.PD(I['mod'], 3e9, include_noise='shot-only', i_dark=1e-7, Fn=3), False),
+        ('opt:MZM.er', lambda I: d.MZM(I['cw'], I['vnd'], Vpi=2.0, ER_dB=10.0, loss_dB=2.0), True),
+        ('opt:DAC.rect', lambda I: d.DAC(I['bseq'], pulse_shape='rect', T=5), True),
+        ('opt:SYNC.sps', lambda I: lab.SYNC(I['rx3'].signal.real, I['tx32'].data, sps=8), True),
+        ('opt:EDFA.bw.1pol', lambda I: d.EDFA(I['mod'], 0.0, 3.0, BW=4e9), False),
+        ('opt:GET_EYE.nslots', lambda I: d.GET_EYE(I['rx_lp'].signal.real, nslots=32), False),
+        ('opt:FBG.single', lambda I: d.FBG(I['mod'], fc=gv.f0, vdneff=1e-4, kL=1.0, filtfilt=False, print_params=False), True),
+        ('opt:ppm.BER.est.soft', lambda I: ppm.BER_analizer('estimator', eye_obj=I['eye'], M=8, decision='soft'), True),
+        ('opt:utils.tBER.ppm', lambda I: utils.theory_BER(np.array([-32.0, -27.0]), 'ppm', M=4, decision='soft', amplify=True, G=20.0, NF=5.0, BW_opt=20e9), True),
+        # --- the result of one call fed to the next
+        ('chain:EDFA-FIBER-PD', lambda I: pipe(I['mod'], lambda x: d.EDFA(x, 15.0, 5.0), lambda x: d.FIBER(x, 10.0, alpha=0.2, beta_2=-20.0),
+                                               lambda x: d.DM(x, 200.0), lambda x: d.PD(x, 3e9)), False),
+        ('chain:DAC-MZM-DM-PD-LPF-ADC', lambda I: pipe(I['tx32'], lambda x: d.DAC(x, Vout=2.0), lambda x: d.MZM(I['cw'][:x.len()], x, bias=-1.0, Vpi=2.0),
+                                                       lambda x: d.BPF(x, 4e9), lambda x: d.PD(x, 3e9, include_noise='ase-only'),
+                                                       lambda x: d.LPF(x, 2e9), lambda x: d.SAMPLER(x, 4), lambda x: d.ADC(x, n=4)), True),
+        ('chain:LASER-PM-EDFA-BPF-PD', lambda I: pipe(I['t'], lambda x: d.LASER(x, 0.0, lw=1e6, rin=-150), lambda x: d.PM(x, I['v'], Vpi=2.0),
+                                                      lambda x: d.EDFA(x, 10.0, 4.0, BW=5e9), lambda x: d.BPF(x, 3e9), lambda x: d.PD(x, 2e9)), False),
+        ('chain:PPM', lambda I: pipe(I['tx32'], lambda x: ppm.PPM_ENCODER(x, 4), lambda x: d.DAC(x, Vout=1.0), lambda x: ppm.SDD(x, 4),
+                                     lambda x: ppm.HDD(x, 4), lambda x: ppm.PPM_DECODER(x, 4), lambda x: ppm.BER_analizer('counter', Tx=I['tx32'], Rx=x)), False),
+        # --- public functions that were not in the menu
+        ('api:utils.dbm', lambda I: (utils.dbm(np.array([1e-3, 2e-3])), utils.idb(np.array([3.0, -3.0])), utils.dbm(1e-3), utils.idb(10)), True),
+        ('api:utils.phase', lambda I: (utils.phase(I['H']), utils.tau_g(I['H'], gv.fs), utils.dispersion(I['H'], gv.fs, gv.f0)), True),
+        ('api:utils.norm', lambda I: (utils.norm(I['vnd']), utils.norm(I['vint_nd']), utils.nearest(I['long'], 0.3), utils.nearest(I['vint_nd'], 5)), True),
+        ('api:utils.opt_th', lambda I: (utils.optimum_threshold(0.2, 1.2, 0.03, 0.05, 'ook'), utils.optimum_threshold(0.2, 1.2, 0.03, 0.05, 'ppm', M=4)), True),
+        ('api:esig.methods', lambda I: (I['v'].copy(), I['v'].copy(10), I['v'].abs(), I['v'].abs('noise'), I['rx'].abs('noise'), I['v'].phase(),
+                                        I['v'].apply(np.cumsum), I['v'].len(), I['v'].type(), I['v'].fs(), I['v'].sps(), I['v'].dt(), I['eint'].copy()), True),
+        ('api:osig.methods', lambda I: (I['opt2'].copy(), I['opt2'].abs('signal'), I['opt2'].phase(), I['opt2'].apply(np.conj), I['opt2'].len(),
+                                        I['oint'].copy(5), I['opt2'].signal.shape, I['mod'].power('noise'), I['oint2n'].abs('all')), True),
+        ('api:bseq.methods', lambda I: (I['bseq'].len(), I['bseq'].type(), I['bseq'].ones(), I['bseq'].zeros(), I['bseq'][3:9], I['bseq'] == I['bseq'],
+                                        binary_seq_roundtrip(I)), True),
+        # (str()/repr()/print()/sizeof() are display helpers, not device/codec/DSP functions: they report the interpreter's memory
+        #  size of the object and set numpy's print options - outside the statement, not in the menu)
+    ]
+
+
+def binary_seq_roundtrip(I):
+    from opticomlib.typing import binary_sequence, electrical_signal, optical_signal
+    return (binary_sequence(I['bits']), binary_sequence(I['bits_str2']), binary_sequence(I['bits_list']), electrical_signal(I['vnd']), optical_signal(I['vnd'], n_pol=2),
+            electrical_signal(I['v'].signal, I['v'].noise), binary_sequence(I['bits_bool']))
+
+
 def input_state(I):
-    h = hashlib.sha1()
+    """the bytes of every argument buffer plus the text of every other attribute of the argument objects and of the list / tuple /
+    str arguments.  Compared for equality after every call (a byte-for-byte comparison instead of a digest keeps the per-call
+    overhead small with the long records in the set); rebinding an attribute of an argument object (x.noise = None) shows up too."""
+    out = []
     for k in sorted(I):
-        for a in arrays_of(I[k]):
-            h.update(np.ascontiguousarray(a).tobytes())
-    return h.hexdigest()
+        o = I[k]
+        if isinstance(o, np.ndarray):
+            out.append(o.tobytes())
+        elif isinstance(o, (list, tuple, str)):
+            out.append(repr(o))
+        else:                                   # library objects: signal / noise / data arrays and scalar attributes
+            for name, v in sorted(vars(o).items()):
+                if isinstance(v, np.ndarray):
+                    out.append(v.tobytes())
+                elif name != 'execution_time':
+                    out.append((name, repr(v)))
+    return tuple(out)
 
 
 def protect(I):
@@ -199,12 +420,15 @@ def setup():
             _CACHE['gv0'][g] = gv_snapshot()
         gv_reset(**GV)
         _CACHE['in0'] = input_state(I)
+        _CACHE['ins'] = [a for k in I for a in arrays_of(I[k])]
         _CACHE['solo'] = {}
     return _CACHE
 
 
 class Raised:
     """a call that raised: the exception type is the (comparable) outcome"""
+    aliased = None
+
     def __init__(self, e):
         self.kind = type(e).__name__
         # the argument buffers are write-protected: numpy refuses an in-place write with this message
@@ -219,6 +443,9 @@ def call(i, seed, g=0):
     np.random.seed(seed)
     try:
         out = f(C['I'])
+    except Aliased as e:
+        out = Raised(e)
+        out.aliased = str(e)
     except Exception as e:
         import traceback
         if not any('/opticomlib/' in fr.filename for fr in traceback.extract_tb(e.__traceback__)):
@@ -295,6 +522,8 @@ def check_after(name, out, viol, where, g=0):
     C = _CACHE
     if isinstance(out, Raised) and out.write_to_argument:
         viol.append((f'purity:writes-to-argument:{name}', f'{where}: {name} tried to write in place into (write-protected) sample data of an argument'))
+    if isinstance(out, Raised) and out.aliased:
+        viol.append((f'alias:chained:{name}', f'{where}: inside {name} {out.aliased}'))
     if gv_snapshot() != C['gv0'][g]:
         viol.append((f'purity:gv-modified:{name}', f'{where}: gv changed by {name}'))
         gv_reset(**GVS[g])
@@ -303,7 +532,7 @@ def check_after(name, out, viol, where, g=0):
         _CACHE.clear()
         setup()
         return
-    ins = [a for k in C['I'] for a in arrays_of(C['I'][k])]
+    ins = C['ins']
     for b in arrays_of(out):
         if any(np.shares_memory(a, b) for a in ins):
             viol.append((f'alias:output-input:{name}', f'{where}: output of {name} shares memory with an input buffer'))
@@ -334,10 +563,13 @@ def seq_case(case):
         if got != want:
             viol.append((f'order-dependence:{name}', f'{where}: output differs from the output of the same call made first in a fresh interpreter'))
         check_after(name, out, viol, where, g)
+        intact = []
         for (j, o, dg) in kept:
             if dig(o) != dg:
                 viol.append((f'alias:output-clobbered:{C["menu"][j][0]}', f'{where}: an earlier output of {C["menu"][j][0]} changed after calling {name}'))
-        kept = [(j, o, dg) for (j, o, dg) in kept if dig(o) == dg]
+            else:
+                intact.append((j, o, dg))
+        kept = intact
         poison(out)
         if len(kept) < 6:
             kept.append((i, out, dig(out)))
